@@ -509,8 +509,29 @@ impl<F: MatchFunc> Aligner<F> {
     /// Globally align a given query against the graph with a band around the previous
     /// optimal score for speed.
     pub fn global_banded(&mut self, query: TextSlice, bandwidth: usize) -> &mut Self {
+        // Store the current clip penalties
+        let clip_penalties = [
+            self.poa.scoring.xclip_prefix,
+            self.poa.scoring.xclip_suffix,
+            self.poa.scoring.yclip_prefix,
+            self.poa.scoring.yclip_suffix,
+        ];
+
+        // Temporarily Over-write the clip penalties
+        self.poa.scoring.xclip_prefix = MIN_SCORE;
+        self.poa.scoring.xclip_suffix = MIN_SCORE;
+        self.poa.scoring.yclip_prefix = MIN_SCORE;
+        self.poa.scoring.yclip_suffix = MIN_SCORE;
+
         self.query = query.to_vec();
         self.traceback = self.poa.global_banded(query, bandwidth);
+
+        // Set the clip penalties to the original values
+        self.poa.scoring.xclip_prefix = clip_penalties[0];
+        self.poa.scoring.xclip_suffix = clip_penalties[1];
+        self.poa.scoring.yclip_prefix = clip_penalties[2];
+        self.poa.scoring.yclip_suffix = clip_penalties[3];
+
         self
     }
 
